@@ -286,6 +286,9 @@ func (s *Sub) push(m *Msg) { // world lock held
 func (s *Sub) close() { // world lock held
 	if !s.closed {
 		s.closed = true
+		if yieldDebug != nil {
+			yieldDebug("C sub-close n" + fmt.Sprint(s.inc.Node.Idx) + " " + s.topic[len(s.topic)-12:])
+		}
 		close(s.done)
 	}
 }
